@@ -12,7 +12,9 @@ S2 == <<C("b"), C("a"), [k |-> "j", v |-> 65], C("c"), C("a")>>
 \* no table entry and is skipped, the quote has one)
 S3 == <<C("a"), C("b"), C("\\"), C("'")>>
 T1 == << [text |-> <<"a">>, code |-> <<1>>], [text |-> <<"b">>, code |-> <<2>>], [text |-> <<"a", "b">>, code |-> <<3>>],
-         [text |-> <<"'">>, code |-> <<144>>], [text |-> <<"c">>, code |-> <<0, 67>>] >>
+         [text |-> <<"'">>, code |-> <<144>>], [text |-> <<"c">>, code |-> <<0, 67>>],
+         \* an entry for the character that opens the raw-byte escape: [0xNN] still emits the raw byte
+         [text |-> <<"[">>, code |-> <<91>>] >>
 T2 == << [text |-> <<"a">>, code |-> <<17>>], [text |-> <<"b", "a">>, code |-> <<18, 19>>] >>
 Items == { [k |-> "table", t |-> 1], [k |-> "table", t |-> 2], [k |-> "text", s |-> S1], [k |-> "text", s |-> S2], [k |-> "text", s |-> S3],
            [k |-> "open"], [k |-> "close"], [k |-> "ifopen"], [k |-> "ifclose"] }
